@@ -270,9 +270,22 @@ func c09Atoms() []c09Atom {
 			return b.Delete([]byte(key))
 		}
 	}
+	delBucket := func(path []string, name string) func(tx *bbolt.Tx) error {
+		return func(tx *bbolt.Tx) error {
+			b := rawPath(tx, false, path...)
+			if b == nil || b.Bucket([]byte(name)) == nil {
+				return nil
+			}
+			return b.DeleteBucket([]byte(name))
+		}
+	}
 	nameIdx := []string{"root", "indexes", "people", "name"}
 	roles := []string{"root", "indexes", "people", "roles"}
 	return []c09Atom{
+		// whole buckets missing (not merely an entry inside an existing bucket)
+		{"fk: back-reference bucket of #o1 missing altogether", delBucket([]string{"root", "orgs", "#o1"}, "members")},
+		{"link: link bucket of place #l1 missing altogether", delBucket([]string{"root", "places", "#l1"}, "people")},
+		{"link: link bucket of person #p1 missing altogether", delBucket([]string{"root", "people", "#p1"}, "places")},
 		{"unique: entry for NameA missing", del(nameIdx, "NameA")},
 		{"unique: dangling entry NameZ -> #zz", put(nameIdx, "NameZ", []byte("#zz"))},
 		{"unique: NameA points to #p1x (wrong target)", put(nameIdx, "NameA", []byte("#p1x"))},
